@@ -142,6 +142,24 @@ def barrel_history(r):
     return files, ops, kinds
 
 
+def same_tail_history(r):
+    """two files whose paths end alike (b.ts and sub/b.ts), one of them broken and repaired during the session: a cache that looks a
+    file up by the tail of its path files the repaired text under the other name"""
+    t1 = r.choice(["string", "{ a: string }", "number[]"])
+    t2 = r.choice(["boolean", "{ n: number; m?: string }", "[string, number]"])
+    t3 = r.choice(["null | string", "{ a: string; b: number }", "number"])
+    files = {"entry.ts": 'import { A } from "./b";\nimport { Nested } from "./sub/b";\nparse.buildParsers<{ A: A, Nested: Nested }>();',
+             "b.ts": "export type A = %s;" % t1, "sub/b.ts": "export type Nested = %s;" % t2}
+    victim, name = r.choice([("b.ts", "A"), ("sub/b.ts", "Nested")])
+    broken = "export type %s = %s & ;" % (name, t3)
+    fixed = "export type %s = %s;" % (name, t3)
+    ops = [["rebuild"], ["update", victim, broken], ["rebuild"], ["update", victim, fixed], ["rebuild"],
+           ["update", "entry.ts", files["entry.ts"] + "\n"], ["rebuild"]]
+    if r.random() < 0.5: ops = ops[1:]          # the victim is broken before anything was built
+    kinds = {(victim, broken): "broken", (victim, fixed): "valid", ("entry.ts", files["entry.ts"] + "\n"): "valid"}
+    return files, ops, kinds
+
+
 def jsdoc_history(r):
     """a file with JSDoc descriptions (they reach the emitted validators) edited to texts of exactly the same byte length: a word of a
     comment replaced, two members swapped, a broken version of the same length in between"""
@@ -216,7 +234,8 @@ def check(run):
     hist = []
     for i in range(n):
         forced = {0: "broken-then-rebuild", 1: "comment-only", 2: "shifted-diagnostic", 3: "created-module", 4: "created-module-resaved"}.get(i % 6)
-        hist.append(barrel_history(r) if i % 12 == 11 else jsdoc_history(r) if i % 12 == 5 else gen_history(r, forced))
+        hist.append(barrel_history(r) if i % 12 == 11 else jsdoc_history(r) if i % 12 == 5 else same_tail_history(r) if i % 12 == 8
+                    else gen_history(r, forced))
     known = common.load_known("C14")
     for kf in known:
         w = json.loads(kf["witness"])
